@@ -1,8 +1,8 @@
 #!/bin/bash
 # runall.sh [tier] [seed]: run every claimed check once on /repo as it is; prints one line per check.
 T=${1:-quick}; S=${2:-1}
-cd /verif
+cd "$(dirname "$0")/.." || exit 2
 for p in $(python3 -c "import json;print(' '.join(c['property_id'] for c in json.load(open('MANIFEST.json'))['checks']))"); do
-  s=$(date +%s); VERIF_SEED=$S timeout 3000 bin/check $p $T > /tmp/runall_$p.log 2>&1; rc=$?
-  echo "$p rc=$rc $(( $(date +%s) - s ))s $(tail -1 /tmp/runall_$p.log | cut -c1-160)"
+  s=$(date +%s); VERIF_SEED=$S timeout 3000 bin/check $p $T > /tmp/runall_${T}_$p.log 2>&1; rc=$?
+  echo "$p rc=$rc $(( $(date +%s) - s ))s $(tail -1 /tmp/runall_${T}_$p.log | cut -c1-160)"
 done
